@@ -307,6 +307,8 @@ func runC19(c *an.Ctx) {
 	ruleG4(c, p.FuncsOf(pkgRefac))
 	ruleG6(c, sp, inRefac)
 	ruleG7(c, sp, mechOf)
+	ruleG8(c, sp)
+	ruleG9(c, sp)
 
 	// ---------------- G2 ----------------
 	walkers := []struct {
